@@ -9,6 +9,7 @@ import hazard
 import depcheck
 import ras
 import engine
+import props.c15 as c15
 
 META = {
     'explanation': 'C07 is a universally quantified absence of run-time failure over floats turned into fixed point; no static argument in reach '
@@ -155,4 +156,4 @@ def r07_3(ctx):
 
 
 def run(ctx):
-    engine.run_rules(ctx, [hazard.r07_1, r07_2, r07_3, dt.r05_6, dt.r05_7, dt.r02_1, dt.r02_2, dt.r02_3, dt.r02_6, ras.r01_5, sd.r04_4, dt.r03_6, dt.r03_7, ras.r10_2, sd.r09_4, ras.r01_9, dt.r03_2, dt.r05_3, ras.r10_5, ras.r01_6, dt.r06_3, depcheck.r07_4])
+    engine.run_rules(ctx, [hazard.r07_1, r07_2, r07_3, dt.r05_6, dt.r05_7, dt.r02_1, dt.r02_2, dt.r02_3, dt.r02_6, ras.r01_5, sd.r04_4, dt.r03_6, dt.r03_7, ras.r10_2, sd.r09_4, ras.r01_9, dt.r03_2, dt.r05_3, ras.r10_5, ras.r01_6, dt.r06_3, depcheck.r07_4, sd.r09_10, c15.r15_rows, c15.r15_5])
